@@ -212,6 +212,12 @@ func scriptJob(r *simcore.RNG, id int, tier string, sinks []string, n int, style
 	}
 	style := pick(r, styles)
 	j := Job{ID: id, Kind: kind, Sink: sink, N: n, Batches: genPartition(r, n, p, style), Coords: "index"}
+	if r.Intn(4) == 0 {
+		// arbitrary geometry instead of numbered items: slivers, near-duplicate and
+		// shared vertices, duplicates (the multiset oracle counts multiplicities)
+		j.Coords = pick(r, []string{"wild-small", "wild-medium", "wild"})
+		j.CoordSeed = r.Uint64()
+	}
 	var victims []string
 	victims = append(victims, "consumer", "renderer")
 	for i := 0; i < p && p > 1; i++ {
@@ -224,6 +230,12 @@ func activeSites(r *simcore.RNG, sink string, always bool) map[string]uint32 {
 	sites := map[string]uint32{"prod": 1, "close": 1, "write": 1}
 	if always || r.Intn(5) != 0 {
 		sites["go.start"] = 1
+	}
+	if r.Intn(2) == 0 {
+		// automatically inserted hooks before every lock / send / wait / atomic
+		// operation of the library (cmd/instrument): interleavings inside Write,
+		// Close and the To* functions
+		sites["auto"] = pick(r, []uint32{1, 2, 4, 8})
 	}
 	for _, s := range sinkSites(sink) {
 		if always || r.Intn(5) != 0 { // buggify subset: each hook is active in 4 of 5 episodes
